@@ -37,17 +37,25 @@ theorem kindsOk_congr {v : Value} {ks' ks : List Tree} (h : ks'.map Tree.value =
   unfold KindsOk
   rw [hnil, forall_kids_congr h (fun x => x.isNormal = true), forall_kids_congr h (fun x => x.isDocument = false)]
 
-theorem attrNames_eq_map (ks : List Tree) :
-    attrNames ks = (ks.map Tree.value).filterMap (fun v => match v with
-      | .attribute n _ => some n
-      | _ => none) := by
-  rw [List.filterMap_map]; rfl
+/-- The key of an attribute node / a namespace node (named functions: a `match` written twice is two
+    different terms). -/
+def Value.attrKey : Value → Option Nat
+  | .attribute n _ => some n
+  | _ => none
 
-theorem nsPrefixes_eq_map (ks : List Tree) :
-    nsPrefixes ks = (ks.map Tree.value).filterMap (fun v => match v with
-      | .namespace p _ => some p
-      | _ => none) := by
-  rw [List.filterMap_map]; rfl
+def Value.nsKey : Value → Option Nat
+  | .namespace p _ => some p
+  | _ => none
+
+theorem attrNames_eq_map (ks : List Tree) : attrNames ks = (ks.map Tree.value).filterMap Value.attrKey := by
+  rw [List.filterMap_map]
+  unfold attrNames
+  congr 1
+
+theorem nsPrefixes_eq_map (ks : List Tree) : nsPrefixes ks = (ks.map Tree.value).filterMap Value.nsKey := by
+  rw [List.filterMap_map]
+  unfold nsPrefixes
+  congr 1
 
 theorem uniqueKids_congr {ks' ks : List Tree} (h : ks'.map Tree.value = ks.map Tree.value) :
     UniqueKids ks' ↔ UniqueKids ks := by
